@@ -20,7 +20,7 @@ RULE = (
 )
 REQUIRED = ["pairs_checked", "mappings_validated", "maximum_checked", "direction_inverse_checked",
             "first_graph_larger", "optimum_smaller_than_pattern", "disconnected_pairs", "mtg_checked",
-            "noninteger_order_pairs", "disconnected_optimum_beats_edge_bound", "mcs_mol_checked"]
+            "noninteger_order_pairs", "disconnected_optimum_beats_edge_bound", "mcs_mol_checked", "reused_matcher_checked"]
 ASSUMPTIONS = [
     "common subgraph = common induced subgraph (bond present iff present, equal order), as the statement says",
     "edge orders compared numerically (float equality), node labels by the configured attributes",
@@ -161,6 +161,27 @@ def check_pair(ctx, G1, G2, tag, key, node_attrs=("element",)):
             if any(0 < len(c & set(mp)) < len(c) for c in comps):
                 bad("mcs-mol-partial-component", f"{name}.MCSMatcher(mcs_mol=True) maps only part of a connected component: {mp}", impl=name, mcs_mol=True)
                 break
+    # history: one matcher instance re-used on the same graph objects (mode switched, then a bond edited in place)
+    if G2.number_of_edges():
+        shared = M1(node_attrs=list(node_attrs), node_defaults=defaults)
+        shared.find_common_subgraph(G1, G2, mcs=False)
+        shared.find_common_subgraph(G1, G2, mcs=True)
+        fresh = M1(node_attrs=list(node_attrs), node_defaults=defaults).find_common_subgraph(G1, G2, mcs=True)
+        ctx.count("reused_matcher_checked")
+        key = lambda ms: sorted(tuple(sorted(x.items())) for x in ms)
+        if key(shared.get_mappings("G1_to_G2")) != key(fresh.get_mappings("G1_to_G2")):
+            bad("matcher-depends-on-history", "a re-used matcher (mcs=False then mcs=True on the same graph objects) answers differently from a fresh one")
+        G2e = G2  # edit in place, query again, restore
+        u, v = next(iter(G2e.edges))
+        old_o = G2e[u][v]["order"]
+        G2e[u][v]["order"] = 3 if old_o != 3 else 1
+        try:
+            shared.find_common_subgraph(G1, G2e, mcs=True)
+            fresh2 = M1(node_attrs=list(node_attrs), node_defaults=defaults).find_common_subgraph(G1, G2e, mcs=True)
+            if key(shared.get_mappings("G1_to_G2")) != key(fresh2.get_mappings("G1_to_G2")):
+                bad("matcher-depends-on-history", "a re-used matcher returns stale mappings after a bond order was edited in place")
+        finally:
+            G2e[u][v]["order"] = old_o
     if WG.gdigest(G1) != d1 or WG.gdigest(G2) != d2:
         bad("input-mutated", "matcher modified an input graph")
     nontrivial = (2 <= opt < min(len(G1), len(G2))) or disc
